@@ -27,14 +27,14 @@ theorem userLabel_stk {n : String} {s : St} {id : Nat} {s' : St} (h : userLabel 
 
 /-- `§name;` : the node of the label is what a jump to the label reaches -/
 theorem label_pm (cx : Cx) (fuel : Nat) (env : Src.Env) (he : EnvOK cx env) (n : String) (hn : n ∈ cx.defs) :
-    PM cx (labelStmt n) (fun k b => Src.tr fuel [] env (.label n) k b) env := by
+    PM cx (labelStmt n) (fun k b => Src.tr fuel cx.sm env (.label n) k b) env := by
   intro s items s' h
   simp only [labelStmt, bind_ok, pure_ok] at h
   obtain ⟨id, s1, h1, h2⟩ := h
   simp only [Prod.mk.injEq] at h2
   obtain ⟨rfl, rfl⟩ := h2
   obtain ⟨hst, hid⟩ := userLabel_stk h1
-  have htr : ∀ k b, Src.tr fuel [] env (.label n) k b =
+  have htr : ∀ k b, Src.tr fuel cx.sm env (.label n) k b =
       match env.labels.lookup n with
       | some i => (b.set i (.silent k), i)
       | none => Src.invalid b ("unallocated label " ++ n) := by
@@ -73,7 +73,7 @@ theorem label_pm (cx : Cx) (fuel : Nat) (env : Src.Env) (he : EnvOK cx env) (n :
 
 /-- `jump @name;` -/
 theorem jump_pm (cx : Cx) (fuel : Nat) (env : Src.Env) (n : String) (hn : n ∈ cx.defs) :
-    PM cx (jumpStmt n) (fun k b => Src.tr fuel [] env (.jump n) k b) env := by
+    PM cx (jumpStmt n) (fun k b => Src.tr fuel cx.sm env (.jump n) k b) env := by
   intro s items s' h
   simp only [jumpStmt, bind_ok, pure_ok] at h
   obtain ⟨id, s1, h1, jj, s2, h2, h3⟩ := h
@@ -92,7 +92,7 @@ theorem jump_pm (cx : Cx) (fuel : Nat) (env : Src.Env) (n : String) (hn : n ∈ 
 
 /-- `call @name;` : a test that goes to the label when taken -/
 theorem call_pm (cx : Cx) (fuel : Nat) (env : Src.Env) (n : String) (hn : n ∈ cx.defs) :
-    PM cx (callStmt n) (fun k b => Src.tr fuel [] env (.call n) k b) env := by
+    PM cx (callStmt n) (fun k b => Src.tr fuel cx.sm env (.call n) k b) env := by
   intro s items s' h
   simp only [callStmt, bind_ok, pure_ok] at h
   obtain ⟨id, s1, h1, o, s2, h2, h3⟩ := h
@@ -101,10 +101,10 @@ theorem call_pm (cx : Cx) (fuel : Nat) (env : Src.Env) (n : String) (hn : n ∈ 
   obtain ⟨hst, hid⟩ := userLabel_stk h1
   obtain ⟨rfl, rfl⟩ := genOp_spec h2
   have hst2 : SameStk s (s1.tickedOp 1) := hst.trans (sameStk_tickedOp _ _)
-  have htr : ∀ k b, Src.tr fuel [] env (.call n) k b =
+  have htr : ∀ k b, Src.tr fuel cx.sm env (.call n) k b =
       ((Src.lookupLabel env b n).1.push (.test ⟨ESV.Spec.op_call, []⟩ (Src.lookupLabel env b n).2 k)) := by
     intro k b; rw [Src.tr]
-  have hgrow : ∀ k b, Grow cx.Z b (Src.tr fuel [] env (.call n) k b).1 := by
+  have hgrow : ∀ k b, Grow cx.Z b (Src.tr fuel cx.sm env (.call n) k b).1 := by
     intro k b
     rw [htr]
     simp only [Src.lookupLabel]
